@@ -412,7 +412,7 @@ func splitPeriod(mpd *m.MPD, a *asset, cfg *ResponseConfig, wTimes wrapTimes) er
 			case segmentNumber:
 				as.SegmentTemplate.PresentationTimeOffset = pto
 				segDur := int(*as.SegmentTemplate.Duration)
-				startNr := uint32(pNr * periodDur * timeScale / segDur)
+				startNr := uint32(pNr*periodDur*timeScale/segDur + cfg.getStartNr())
 				as.SegmentTemplate.StartNumber = Ptr(startNr)
 			case timeLineTime:
 				as.SegmentTemplate.PresentationTimeOffset = pto
